@@ -55,19 +55,25 @@ func concat(t *rt.Thread, c *rt.GoCont) (rt.Cont, error) {
 	}
 	switch nargs := c.NArgs(); {
 	case nargs >= 4:
-		j, err = c.IntArg(3)
+		if !c.Arg(3).IsNil() {
+			j, err = c.IntArg(3)
+		}
 		if err != nil {
 			break
 		}
 		fallthrough
 	case nargs >= 3:
-		i, err = c.IntArg(2)
+		if !c.Arg(2).IsNil() {
+			i, err = c.IntArg(2)
+		}
 		if err != nil {
 			break
 		}
 		fallthrough
 	case nargs >= 2:
-		sep, err = c.StringArg(1)
+		if !c.Arg(1).IsNil() {
+			sep, err = c.StringArg(1)
+		}
 		if err != nil {
 			break
 		}
@@ -206,7 +212,7 @@ func move(t *rt.Thread, c *rt.GoCont) (rt.Cont, error) {
 		return nil, err
 	}
 	dstVal := srcVal
-	if c.NArgs() >= 5 {
+	if c.NArgs() >= 5 && !c.Arg(4).IsNil() {
 		_, err = c.TableArg(4)
 		if err != nil {
 			return nil, err
@@ -290,7 +296,7 @@ func remove(t *rt.Thread, c *rt.GoCont) (rt.Cont, error) {
 		return nil, err
 	}
 	pos := tblLen
-	if c.NArgs() >= 2 {
+	if c.NArgs() >= 2 && !c.Arg(1).IsNil() {
 		pos, err = c.IntArg(1)
 		if err != nil {
 			return nil, err
@@ -452,7 +458,7 @@ func unpack(t *rt.Thread, c *rt.GoCont) (rt.Cont, error) {
 		j int64
 	)
 	nargs := c.NArgs()
-	if nargs >= 2 {
+	if nargs >= 2 && !c.Arg(1).IsNil() {
 		i, err = c.IntArg(1)
 		if err != nil {
 			return nil, err
